@@ -199,6 +199,22 @@ class Interp(ExtMixin):
             return
         if isinstance(cond, bool) and cond:
             return
+        for cf in reversed(getattr(st, "catch_stack", None) or []):
+            if cf.catches(exc):
+                # inside a `try` whose handlers catch this exception: no obligation -- the raising case continues in the handler (ex_Try
+                # takes it from the frame's event list), this path goes on with the non-raising case
+                always = (isinstance(cond, bool) and not cond) or not self.feasible(st, cond)
+                if always or self.feasible(st, z3.Not(cond)):
+                    snap = st.clone()
+                    if not always:
+                        snap.assume(z3.Not(cond))
+                    cf.events.append((snap, exc, getattr(node, "lineno", None)))
+                if always:
+                    st.assume(False)
+                    st.dead = True
+                else:
+                    st.assume(cond)
+                return
         # the clause names the expression that may raise (not only the exception class): after a restructuring of the function an
         # implicit obligation of a *different* expression is a new obligation, not "the one that used to be discharged"
         tag = ""
@@ -817,12 +833,16 @@ class Interp(ExtMixin):
                 return out
             if not self.spec_mode:
                 self.safety(st, "IndexError", -len(items) <= i < len(items), node)
+                if getattr(st, "dead", False):
+                    return 0
             return items[i]
         if isinstance(o, PDict):
             if is_sym(i):
                 raise Unsupported("symbolic dict key")
             if i not in o.items:
                 self.safety(st, "KeyError", False, node)
+                if getattr(st, "dead", False):
+                    return 0  # the KeyError is handled by an enclosing try: this path has ended (its continuation is the handler's)
                 raise Unsupported("missing dict key")
             return o.items[i]
         if isinstance(o, Mem):
@@ -1506,11 +1526,61 @@ class Interp(ExtMixin):
             else:
                 yield st1, ("return", v)
 
+    def ex_Try(self, st, s):
+        """try / except / else (no finally): explicit raises reach here as outcomes of the body; implicit exceptions of the classes the
+        handlers name are collected by `safety` as events (a snapshot of the path at the raising expression).  Both continue in the first
+        matching handler, in this function's frame."""
+        if s.finalbody:
+            raise Unsupported(f"try/finally at line {s.lineno}")
+        names = []
+        for h in s.handlers:
+            names.append(_handler_names(h.type))
+        cf = _CatchFrame([n for ns in names for n in (ns if ns is not None else [None])], len(st.frames), st.depth)
+        st.catch_stack = list(getattr(st, "catch_stack", None) or []) + [cf]
+
+        def leave(stx):
+            stx.catch_stack = [f for f in (getattr(stx, "catch_stack", None) or []) if f is not cf]
+
+        def handle(stx, excname, lineno):
+            del stx.frames[cf.n_frames:]
+            stx.depth = cf.depth
+            for h, ns in zip(s.handlers, names):
+                if ns is None or any(exc_is_a(excname, n) for n in ns):
+                    if h.name:
+                        eo = SymObj("exception", {"exc_class": excname, "args": ()})
+                        eo.closed = True
+                        stx.locals[h.name] = eo
+                    stx.handling = list(getattr(stx, "handling", None) or []) + [(excname, lineno)]
+                    for st2, out in self.exec_block(stx, h.body):
+                        st2.handling = list(getattr(st2, "handling", None) or [])[:-1]
+                        yield st2, out
+                    return
+            yield stx, ("raise", excname, lineno)
+
+        for st1, out in self.exec_block(st, s.body):
+            leave(st1)
+            if getattr(st1, "dead", False):
+                continue
+            if out is not None and out[0] == "raise" and cf.catches(out[1]):
+                yield from handle(st1, out[1], out[2])
+            elif out is None:
+                yield from self.exec_block(st1, s.orelse)
+            else:
+                yield st1, out
+        while cf.events:
+            snap, exc, line = cf.events.pop(0)
+            leave(snap)
+            yield from handle(snap, exc, line)
+
     def ex_Raise(self, st, s):
         name = "Exception"
         e = s.exc
         if e is None:
-            raise Unsupported("bare raise")
+            hd = getattr(st, "handling", None)
+            if not hd:
+                raise Unsupported("bare raise outside a handler")
+            yield st, ("raise", hd[-1][0], s.lineno)
+            return
         if isinstance(e, ast.Call):
             e = e.func
         if isinstance(e, ast.Name):
@@ -2240,6 +2310,50 @@ class Interp(ExtMixin):
             return self.eval_in_snapshot(st, "old", expr)
         finally:
             self.old_stack.pop()
+
+
+_EXC_PARENT = {
+    "KeyError": "LookupError", "IndexError": "LookupError", "LookupError": "Exception", "ValueError": "Exception", "TypeError": "Exception",
+    "AttributeError": "Exception", "AssertionError": "Exception", "ZeroDivisionError": "ArithmeticError", "OverflowError": "ArithmeticError",
+    "ArithmeticError": "Exception", "NotImplementedError": "RuntimeError", "RecursionError": "RuntimeError", "RuntimeError": "Exception",
+    "UnicodeDecodeError": "UnicodeError", "UnicodeEncodeError": "UnicodeError", "UnicodeError": "ValueError", "StopIteration": "Exception",
+    "MemoryError": "Exception", "OSError": "Exception", "NameError": "Exception", "Exception": "BaseException",
+}
+
+
+def exc_is_a(name, caught):
+    """is exception class `name` a subclass of `caught` (builtin hierarchy; classes defined elsewhere count as direct children of Exception)"""
+    seen = 0
+    while name is not None and seen < 10:
+        if name == caught:
+            return True
+        name = _EXC_PARENT.get(name, "Exception" if name != "BaseException" else None)
+        seen += 1
+    return False
+
+
+def _handler_names(t):
+    if t is None:
+        return None
+    if isinstance(t, ast.Tuple):
+        out = []
+        for e in t.elts:
+            out += _handler_names(e) or []
+        return out
+    if isinstance(t, ast.Name):
+        return [t.id]
+    if isinstance(t, ast.Attribute):
+        return [t.attr]
+    raise Unsupported("computed exception class in an except clause")
+
+
+class _CatchFrame:
+    def __init__(self, names, n_frames, depth):
+        self.names, self.n_frames, self.depth = names, n_frames, depth
+        self.events = []
+
+    def catches(self, exc):
+        return any(n is None or exc_is_a(exc, n) for n in self.names)
 
 
 class EnumView:
